@@ -1,6 +1,6 @@
 """check configuration for C20 (loaded by lib/zvprops.py)"""
 
-PROP = {'gen_tables': ['LevelText'],
+PROP = {'gen_tables': ['LevelText', 'TransLevel'],
  'rule': 'ops: all 256 level values through every text form; level texts (names, aliases, case variants, near-misses, hostile bytes) through '
          'UnmarshalText/AtomicLevel/ParseLevel/flag/JSON; sequences of 1–4 HTTP requests (method × content type × body/query shapes); non-trivial = '
          'non-empty text / a request sequence that changed the level; distinct = distinct canonical op JSON',
